@@ -502,6 +502,39 @@ def shared_parent_case(ctx):
                       f'{len(res)} statements, e.g. {sorted(res)[:2]}', inp)
 
 
+def pomless_section_case(ctx):
+    """C12_F3 (repaired): a data-source section whose mapping files declare only triples maps WITHOUT predicate-object maps (legal:
+    zero or more; they generate nothing) must leave the statements of the other sections as they are — and a configuration that
+    consists of such a section only yields the empty set, not an exception."""
+    d = os.path.join(ctx.tmp, 'pomless')
+    os.makedirs(d, exist_ok=True)
+    with open(os.path.join(d, 't.csv'), 'w') as f:
+        f.write('k\nx\ny\n')
+    head = ('@prefix rr: <http://www.w3.org/ns/r2rml#> . @prefix rml: <http://semweb.mmlab.be/ns/rml#> . '
+            '@prefix ql: <http://semweb.mmlab.be/ns/ql#> .\n')
+    src = f'rml:logicalSource [ rml:source "{os.path.join(d, "t.csv")}"; rml:referenceFormulation ql:CSV ]'
+    with open(os.path.join(d, 'full.ttl'), 'w') as f:
+        f.write(head + f'<http://ex.org/tm/Full> {src}; rr:subjectMap [ rr:template "http://ex.org/C/{{k}}"; rr:class <http://ex.org/K> ] .\n')
+    with open(os.path.join(d, 'bare.ttl'), 'w') as f:
+        f.write(head + f'<http://ex.org/tm/Bare> {src}; rr:subjectMap [ rr:template "http://ex.org/P/{{k}}" ] .\n')
+    conf = '[CONFIGURATION]\noutput_format=N-TRIPLES\nnumber_of_processes=1\nlogging_level=CRITICAL\n'
+    full = f'[DS0]\nmappings={os.path.join(d, "full.ttl")}\n'
+    bare = f'[DS1]\nmappings={os.path.join(d, "bare.ttl")}\n'
+    base = run_cfg(conf + full)
+    both = run_cfg(conf + full + bare)
+    only = run_cfg(conf + bare)
+    ctx.case(['pomless-section'], nontrivial=True, kind='section with triples maps without predicate-object maps')
+    ctx.traces_validated += 1
+    inp = {'kind': 'pomless-section'}
+    if base[0] != 'ok' or len(base[1]) != 2:
+        ctx.violation(f'the reference configuration does not give its two statements: {str(base)[:200]}', inp)
+    elif both != base:
+        ctx.violation('adding a data-source section whose triples maps have no predicate-object map changes the result of the rest: '
+                      f'{str(both)[:200]} instead of {str(base)[:120]}', inp)
+    elif only != ('ok', []):
+        ctx.violation(f'a configuration whose triples maps have no predicate-object map does not give the empty result: {str(only)[:200]}', inp)
+
+
 def run(ctx, lean, findings):
     rng = ctx.rng
     drv = ctx.get_driver() if ctx.model_available else None
@@ -540,6 +573,7 @@ def run(ctx, lean, findings):
 
     relative_ids_case(ctx)
     shared_parent_case(ctx)
+    pomless_section_case(ctx)
 
     n = ctx.budget(72, 2400) * (3 if ctx.escalate else 1)
     cap = 70 if ctx.tier == 'quick' else 690
@@ -564,6 +598,10 @@ def replay(ctx, data):
     if data['input'].get('kind') == 'shared-parent':
         before = len(ctx.violations)
         shared_parent_case(ctx)
+        return len(ctx.violations) > before
+    if data['input'].get('kind') == 'pomless-section':
+        before = len(ctx.violations)
+        pomless_section_case(ctx)
         return len(ctx.violations) > before
     if data['input'].get('kind') == 'relative-ids':
         before = len(ctx.violations)
